@@ -118,7 +118,7 @@ def main():
     res = ck.step_generate('Gen_C10', TARGETS)
     if res is not None:
         ck.step_prove('P_C10')
-    goals = run_cases(ck, res, 80, 16 if ck.thorough() else 6, exhaustive=ck.thorough())
+    goals = run_cases(ck, res, 800 if ck.thorough() else 80, 40 if ck.thorough() else 6, exhaustive=ck.thorough())
     ck.extra['exhaustive'] = ck.thorough()
     if res is not None:
         ck.step_interval_goals('corr', goals)
